@@ -43,6 +43,44 @@ def main():
             continue
         ok, detail = c17.replay(v, bounds)
         rep.violation(v['obligation'], v['tags'], f"{v['detail']} :: replay on the real Builder.fly with concrete values: {detail}", ok, inputs=v['values'])
+    # --- the same statement on the real LegacyBuilder: a flight on a used builder (after a successful or a rejected
+    #     flight) is term-for-term the flight a fresh builder produces for the same performance-model answers
+    from vf.harness import c02
+    tier = common.tier()
+    fails = [None, [0], [4]] if tier == 'quick' else [None] + [[k] for k in range(10)]
+    jobs2 = [dict(npts=(2, 2, 2), caps=(3, 2), deadline_s=500 if tier == 'quick' else 2500, first_may_fail=f is not None, fail_only_at=f) for f in fails]
+    if tier != 'quick':
+        jobs2 += [dict(npts=(3, 2, 2), caps=(2, 2), deadline_s=2500, first_may_fail=False, fail_only_at=None)]
+    rep.bounds['legacy_builder_two_flights'] = 'flight 1 (symbolic mission and model, succeeding or refused by the model at call %s) then flight 2 (another symbolic mission/model) on the same real LegacyBuilder, compared with flight 2 on a fresh builder; 2 points per phase' % [f for f in fails]
+    rep.functions += common.fn_fingerprint(c02.mods()['LG'].LegacyBuilder.calc_starting_mass, c02.mods()['LG'].LegacyBuilder._fly_level_change, c02.mods()['LG'].LegacyBuilder.fly_cruise, c02.mods()['LG'].LegacyContext.__init__)
+    for (status, o2), job in zip(common.pmap(c02.run_two_flights, jobs2), jobs2):
+        if status != 'ok':
+            rep.inconclusive.append(f'two-flight job {job} failed: {o2[:300]}')
+            continue
+        rep.merge_stats(o2['stats'])
+        for oid, d in o2['obligations'].items():
+            for r, n in d.items():
+                for _ in range(n):
+                    rep.obl(oid, r)
+        rep.distinct |= {('two flights', job['fail_only_at'] and job['fail_only_at'][0], i) for i in range(o2['distinct'])}
+        for k, n in o2['outcomes'].items():
+            rep.extra['outcomes'][k] = rep.extra['outcomes'].get(k, 0) + n
+        for s_ in o2['samples'][:1]:
+            rep.sample(s_)
+        if o2['truncated']:
+            rep.inconclusive.append(f'two-flight job {job} hit its deadline')
+        for u in o2['unknown'][:2]:
+            rep.inconclusive.append(f'two-flight job: solver unknown on {u}')
+        seen2 = set()
+        for v in o2['violations']:
+            if v['obligation'] == 'harness':
+                rep.inconclusive.append(v['detail'])
+                continue
+            if v['obligation'] in seen2:
+                continue
+            seen2.add(v['obligation'])
+            ok, detail = c02.replay_two_flights(job, v)
+            rep.violation(v['obligation'], dict(v['tags'], stage='real LegacyBuilder, symbolic'), f"{v['detail']} :: {detail}", ok, inputs=v['values'])
     # vacuity: a returning path and a rejecting path exist
     rep.vacuity_twin('some path returns a trajectory', out['outcomes'].get('returned', 0) > 0)
     rep.vacuity_twin('some path raises an injected rejection', any(k != 'returned' for k in out['outcomes']))
